@@ -212,11 +212,16 @@ func (ts *TimeSeries) TakeFrom(src []byte) ([]byte, error) {
 	if ts.step == 0 {
 		return nil, errors.New("step must not be zero")
 	}
+	if ts.step < 0 {
+		return nil, errors.New("step must not be negative")
+	}
 	if ts.untilTime < ts.fromTime {
 		return nil, errors.New("untilTime is older than fromTime")
 	}
 
-	n := int(ts.untilTime.Sub(ts.fromTime) / ts.step)
+	// NOTE: untilTime.Sub(fromTime) wraps around to a negative Duration
+	// when the two are 2^31 or more seconds apart.
+	n := int((int64(ts.untilTime) - int64(ts.fromTime)) / int64(ts.step))
 	wantedSize := n * float64Size
 	if len(src) < wantedSize {
 		return nil, &WantLargerBufferError{WantedBufSize: 3*uint32Size + wantedSize}
@@ -310,8 +315,12 @@ func (pp *Points) TakeFrom(src []byte) ([]byte, error) {
 		return nil, &WantLargerBufferError{WantedBufSize: uint64Size}
 	}
 
-	count := int(binary.BigEndian.Uint64(src))
+	ucount := binary.BigEndian.Uint64(src)
 	src = src[uint64Size:]
+	if ucount > math.MaxInt32 {
+		return nil, errors.New("too many points")
+	}
+	count := int(ucount)
 
 	wantedSize := count * pointSize
 	if len(src) < wantedSize {
